@@ -42,10 +42,10 @@ CONFIGS = {
         crates=["tracing_core"]),
     "release": dict(
         kind="repo",
-        args=["-p", "tracing-core", "-p", "tracing", "-p", "tracing-subscriber",
+        args=["-p", "tracing-core", "-p", "tracing", "-p", "tracing-subscriber", "-p", "tracing-appender",
               "--features", "tracing-subscriber/json tracing-subscriber/env-filter tracing-subscriber/registry"],
         rustflags="-Cdebug-assertions=off",
-        crates=["tracing_core", "tracing", "tracing_subscriber"]),
+        crates=["tracing_core", "tracing", "tracing_subscriber", "tracing_appender"]),
     "log": dict(
         kind="repo",
         args=["-p", "tracing", "--features", "tracing/log"],
@@ -106,6 +106,7 @@ def tools_hash():
                 if f.endswith((".rs", ".toml", ".py", ".json")):
                     files.append(os.path.relpath(os.path.join(dp, f), VERIF))
     files.append("tools/factgen/Cargo.toml")
+    files.append("rulekit/facts.py")       # the build configurations (CONFIGS) are part of what a fact set means
     return _sha_files(VERIF, files)
 
 
